@@ -241,3 +241,13 @@ func projVolatile(st sugardb.VerifState) []any {
 	}
 	return out
 }
+
+// rjson renders a reply for the trace; the reply of RANDOMKEY also carries the key as a string
+// (the abstract store is keyed by strings, the reply carries bytes).
+func rjson(cmd []Tok, r Reply) map[string]any {
+	m := r.JSON()
+	if len(cmd) > 0 && upper(cmd[0].S) == "RANDOMKEY" && (r.T == "simple" || r.T == "bulk") {
+		m["s"] = string(r.B)
+	}
+	return m
+}
